@@ -162,23 +162,28 @@ def finishRight (t newCells : List Cell) : Except Err (List Cell) := do
     fixPrevEvaluationDate t (← Triangle.toIncremental right)
   else pure right
 
-/-- the new cells of `make_right_triangle` on the cumulative triangle `cum`, before `Triangle(...)`.
-An unrecognised unit raises `ValueError` at the first `cell.dev_lag(unit)` — i.e. whenever at least
-one lag/cell pair is looked at. -/
-def rightTriangleCells (cum : List Cell) (lags : Option (List Rat)) (unit : String) :
+/-- the new cells of `make_right_triangle` on the cumulative triangle `cum`, before `Triangle(...)`,
+for an already dispatched unit (`none` = unrecognised). An unrecognised unit raises `ValueError` at the
+first `cell.dev_lag(unit)` — i.e. whenever at least one lag/cell pair is looked at. -/
+def rightTriangleCells (cum : List Cell) (lags : Option (List Rat)) (u? : Option LagUnit) :
     Except Err (List Cell) :=
-  match LagUnit.parse? unit with
+  match u? with
   | none => if cum.isEmpty || lags == some [] then pure [] else throw .valueError
   | some u => do
     let new ← (Triangle.slices cum).mapM fun p => rightTriangleSlice lags u p.2
     pure new.flatten
 
-/-- `make_right_triangle(triangle, dev_lags, dev_lag_unit)` -/
-def makeRightTriangle (t : List Cell) (lags : Option (List Rat)) (unit : String) :
+/-- `make_right_triangle` after the unit string has been dispatched -/
+def makeRightTriangleU (t : List Cell) (lags : Option (List Rat)) (u? : Option LagUnit) :
     Except Err (List Cell) := do
   let cum ← if Triangle.isIncremental t then Triangle.toCumulative t else pure t
-  let new ← rightTriangleCells cum lags unit
+  let new ← rightTriangleCells cum lags u?
   finishRight t new
+
+/-- `make_right_triangle(triangle, dev_lags, dev_lag_unit)` -/
+def makeRightTriangle (t : List Cell) (lags : Option (List Rat)) (unit : String) :
+    Except Err (List Cell) :=
+  makeRightTriangleU t lags (LagUnit.parse? unit)
 
 /-! ## `make_right_diagonal` -/
 
